@@ -10,6 +10,8 @@ import (
 
 	"cosmossdk.io/core/comet"
 	sdkmath "cosmossdk.io/math"
+	"github.com/btcsuite/btcd/btcutil"
+	"github.com/btcsuite/btcd/txscript"
 	abci "github.com/cometbft/cometbft/abci/types"
 	cmtproto "github.com/cometbft/cometbft/proto/tendermint/types"
 	cmttypes "github.com/cometbft/cometbft/types"
@@ -89,6 +91,22 @@ func (w *World) Exec(o *tr.Op) string {
 		return w.DumpLock()
 	case "dump.acc":
 		return w.DumpAcc()
+
+	case "btc.validateparams":
+		p := bitcointypes.Params{NetworkName: o.Str("net"), ConfirmationNumber: o.U64("conf"), MinDepositAmount: o.U64("min"),
+			DepositMagicPrefix: o.Bytes("magic"), DepositTaxRate: o.U64("rate"), MaxDepositTax: o.U64("max")}
+		if err := p.Validate(); err != nil {
+			return "err"
+		}
+		return "ok"
+	case "addr.decode":
+		sc, err := bitcointypes.DecodeBtcAddress(string(o.Bytes("str")), bitcointypes.BitcoinNetworks[o.Str("net")])
+		if err != nil {
+			return "x"
+		}
+		return tr.Hex(sc)
+	case "addr.deposit":
+		return w.addrDeposit(o)
 
 	// ------------------------------------------------------------------ relayer / bridge messages
 	case "tx.hashes":
@@ -300,6 +318,43 @@ func (w *World) applyComet(ups []abci.ValidatorUpdate) (res string) {
 	}
 	w.Comet = cp
 	return "ok"
+}
+
+// addrDeposit: what the node hands out (DepositAddressV0/V1) decoded independently with btcutil,
+// then fed to the real verifiers for the same and for a different key / EVM address.
+func (w *World) addrDeposit(o *tr.Op) string {
+	net := bitcointypes.BitcoinNetworks[o.Str("net")]
+	pk := PubKeyOf(o.Str("kind"), o.Bytes("key"))
+	pk2 := PubKeyOf(o.Str("kind2"), o.Bytes("key2"))
+	evm, evm2, magic := o.Bytes("evm"), o.Bytes("evm2"), o.Bytes("magic")
+	script := func(a btcutil.Address) []byte {
+		dec, err := btcutil.DecodeAddress(a.EncodeAddress(), net)
+		if err != nil {
+			return nil
+		}
+		sc, _ := txscript.PayToAddrScript(dec)
+		return sc
+	}
+	if o.Str("version") == "0" {
+		a, err := bitcointypes.DepositAddressV0(pk, evm, net)
+		if err != nil {
+			return "none"
+		}
+		sc := script(a)
+		same := bitcointypes.VerifyDespositScriptV0(pk, evm, sc) == nil
+		otherKey := bitcointypes.VerifyDespositScriptV0(pk2, evm, sc) == nil
+		otherEvm := bitcointypes.VerifyDespositScriptV0(pk, evm2, sc) == nil
+		return fmt.Sprintf("%s same=%s otherkey=%s otherevm=%s", tr.Hex(sc), tr.B(same), tr.B(otherKey), tr.B(otherEvm))
+	}
+	a, data, err := bitcointypes.DepositAddressV1(pk, magic, evm, net)
+	if err != nil {
+		return "none"
+	}
+	sc := script(a)
+	same := bitcointypes.VerifyDespositScriptV1(pk, magic, evm, sc, data) == nil
+	otherKey := bitcointypes.VerifyDespositScriptV1(pk2, magic, evm, sc, data) == nil
+	otherEvm := bitcointypes.VerifyDespositScriptV1(pk, magic, evm2, sc, data) == nil
+	return fmt.Sprintf("%s+%s same=%s otherkey=%s otherevm=%s", tr.Hex(sc), tr.Hex(data), tr.B(same), tr.B(otherKey), tr.B(otherEvm))
 }
 
 type cometInfo struct{ mis []abci.Misbehavior }
